@@ -11,7 +11,7 @@ def last_stmt(b):
     return field(b, "_statements")[len(field(b, "_statements")) - 1]
 
 
-contract(TR + "query_ast_visitor.visit_IfExp", props=["C04", "C13", "C01"],
+contract(TR + "query_ast_visitor.visit_IfExp", props=["C04", "C13", "C01", "C02"],
          params=dict(self=QV, node=IFEXP),
          requires=CVC_REQUIRES + [("parts", "field(node, 'test') != None and field(node, 'body') != None and field(node, 'orelse') != None"),
                                   ("cursor", "len(cursor(self)) >= 1 and all(b != None and live(b) for b in cursor(self))")],
@@ -35,6 +35,8 @@ contract(TR + "query_ast_visitor.visit_IfExp", props=["C04", "C13", "C01"],
          ensures=CVC_ENSURES + [
              ("result_variable@C13,C04", "rep_of(node) != None and is_new(rep_of(node)) and cls_is(rep_of(node), 'func_adl_xAOD.common.cpp_representation.cpp_variable') "
                                          "and kind_of(rep_of(node)) == 'double' and field(rep_of(node), '_initial_value') == None"),
+             ("declared_in_the_enclosing_block_before_the_test@C02,C01,C04",
+              "contains(field(top_block(old(cursor(self))), '_variables'), rep_of(node)) and seq_eq(stack_of(scope_of(rep_of(node))), old(cursor(self)))"),
              ("if_block@C04", "final_g_if != None and is_new(final_g_if) and cls_is(final_g_if, '" + BLK + "iftest') and "
                               "field(final_g_if, '_expr') == final_test_expr"),
              ("else_block@C04", "final_g_else != None and is_new(final_g_else) and cls_is(final_g_else, '" + BLK + "elsephrase')"),
@@ -49,3 +51,37 @@ contract(TR + "query_ast_visitor.visit_IfExp", props=["C04", "C13", "C01"],
 
 def old_rep_of_test(node):
     return field(field(node, "test"), "rep")
+
+
+# ---- boolean operators: every operand after the first is evaluated only under a guard on the result so far (short circuit) ----
+BOOLOP = RefOf("ast.BoolOp")
+_BO_GUARD = ("cls_is(top_block(cursor(self)), '" + BLK + "iftest') and is_new(top_block(cursor(self))) and "
+             "field(top_block(cursor(self)), '_expr') == check")
+_BO_ASSIGN = ("cls_is(last_stmt(top_block(cursor(self))), '" + BLK + "set_var') and field(last_stmt(top_block(cursor(self))), '_target') == result and "
+              "field(last_stmt(top_block(cursor(self))), '_value') == rep_v")
+contract(TR + "query_ast_visitor.visit_BoolOp", props=["C04", "C01", "C02"],
+         params=dict(self=QV, node=BOOLOP),
+         requires=CVC_REQUIRES + [("operands", "field(node, 'op') != None and len(field(node, 'values')) >= 2 and all(v != None and live(v) for v in field(node, 'values'))"),
+                                  ("cursor", "len(cursor(self)) >= 1 and all(b != None and live(b) for b in cursor(self))")],
+         modifies=CVC_MODIFIES, may_raise=["Exception"], strict=False,
+         local_sorts=dict(g_k=Int, g_nguards=Int, g_ok=Bool, g_guards_ok=Bool, g_assign_ok=Bool, result=VAL, check=VAL),
+         ghost_init=["g_k = 0", "g_nguards = 0", "g_ok = True", "g_guards_ok = True", "g_assign_ok = True"],
+         ghost={"after:self._gc.add_statement(statement.iftest(check))": ["g_nguards = g_nguards + 1", "g_guards_ok = g_guards_ok and " + _BO_GUARD],
+                "after:rep_v = self.get_rep(v)": ["g_ok = g_ok and (g_k == 0 or g_nguards == g_k)", "g_k = g_k + 1"],
+                "after:self._gc.add_statement(statement.set_var(result, rep_v))": ["g_assign_ok = g_assign_ok and " + _BO_ASSIGN]},
+         ensures=CVC_ENSURES + [
+             ("result_variable@C04,C02", "rep_of(node) != None and is_new(rep_of(node)) and cls_is(rep_of(node), 'func_adl_xAOD.common.cpp_representation.cpp_variable') "
+                                         "and kind_of(rep_of(node)) == 'bool' and contains(field(top_block(old(cursor(self))), '_variables'), rep_of(node))"),
+             ("guard_tests_the_result_so_far@C04", "expr_of(final_check) == (expr_of(rep_of(node)) if cls_is(field(node, 'op'), 'ast.And') else '!' + expr_of(rep_of(node)))"),
+             ("every_later_operand_evaluated_under_its_own_guard@C04", "final_g_ok and final_g_k == len(field(node, 'values')) and "
+                                                                       "final_g_nguards == len(field(node, 'values')) - 1 and final_g_guards_ok"),
+             ("every_operand_assigned_to_the_result@C04", "final_g_assign_ok"),
+             ("cursor_restored@C01,C04", "seq_eq(cursor(self), old(cursor(self)))"),
+         ],
+         loops={1: dict(modifies=CVC_MODIFIES, ghost_mods=["g_k", "g_nguards", "g_ok", "g_guards_ok", "g_assign_ok"],
+                        invariant=CVC_LOOP_INV + [
+                            ("B.counts", "g_k == _i and g_nguards == (_i - 1 if _i >= 1 else 0) and g_ok and g_guards_ok and g_assign_ok and first == (_i == 0)"),
+                            ("B.cursor", "implies(_i >= 2, seq_eq(cursor(self), stack_of(scope))) and seq_eq(stack_of(scope), old(cursor(self))) and "
+                                         "len(cursor(self)) >= 1 and all(b != None and live(b) for b in cursor(self))"),
+                            ("B.result", "result != None and live(result) and contains(field(top_block(old(cursor(self))), '_variables'), result) and "
+                                         "check != None and live(check)")])})
